@@ -28,27 +28,37 @@
 (*                               (PeriodicalImpl.tla: no deadlock, a       *)
 (*                               flusher is alive while work is pending),  *)
 (*                               so no behaviour explains this event.      *)
+(*   rh b err                    [inserter] the result handler was called  *)
+(*                               for the executed statement holding rows b *)
+(*   xbm bs n drops / xem ...    [metrics] a report reached the writer:    *)
+(*                               set of non-drop tasks (decoded from the   *)
+(*                               aggregated duration), their number as     *)
+(*                               reported, number of drops                 *)
 (* kind "per": the container belongs to the recorder, so AddTask/RemoveAll *)
 (* are logged under the executor's lock and nothing is internal.           *)
-(* kinds "bulk"/"chunk" are driven through the public API only: where an   *)
-(* Add takes effect and where a batch is taken are internal steps that TLC *)
-(* places.                                                                 *)
+(* kinds "bulk"/"chunk" (executors), "inserter" (sqlx.BulkInserter: a row  *)
+(* is a task, an executed INSERT statement is a batch) and "metrics"       *)
+(* (stat.Metrics: a Task or a drop is a task, a report handed to the       *)
+(* writer is a batch) are driven through the public API only: where an Add *)
+(* takes effect is an internal step that TLC places, and the unobservable  *)
+(* Take is folded into the begin of the execution (Executor!PubBegin).     *)
 (***************************************************************************)
 EXTENDS Executor, Json
 
 TraceLog == ndJsonDeserialize("trace.ndjson")
 
 VARIABLES l,        \* index of the next event to consume
-          fl        \* flusher tickers alive (bookkeeping only)
+          fl,       \* flusher tickers alive (bookkeeping only)
+          handled   \* [inserter] executed statements whose result handler has been called
 
-vars == <<l, fl, conf, added, sz, held, pend, running, begun, finished, returned, pc>>
+vars == <<l, fl, handled, conf, added, sz, held, pend, running, begun, finished, returned, pc>>
 
 Ev == TraceLog[l]
 Is(name) == l <= Len(TraceLog) /\ TraceLog[l].e = name
 Consume == l' = l + 1
 
 Init ==
-  /\ l = 1 /\ fl = {}
+  /\ l = 1 /\ fl = {} /\ handled = {}
   /\ AInit([kind |-> "none", max |-> 0])
   /\ TLCSet(1, 1)
 
@@ -58,38 +68,53 @@ Reset ==
   /\ conf' = [kind |-> Ev.kind, max |-> Ev.max]
   /\ added' = <<>> /\ sz' = <<>> /\ held' = <<>> /\ pend' = {} /\ running' = {}
   /\ begun' = {} /\ finished' = {} /\ returned' = {}
-  /\ UNCHANGED pc /\ fl' = {} /\ Consume
+  /\ UNCHANGED pc /\ fl' = {} /\ handled' = {} /\ Consume
 
-EvAddInv == Is("ainv") /\ AddInv(Ev.p, Ev.t, Ev.s) /\ UNCHANGED fl /\ Consume
+Public == conf.kind \in {"bulk", "chunk", "inserter", "metrics"}
+SetOf(q) == {q[i] : i \in 1..Len(q)}
+\* [metrics] what a report says about its batch
+Sig(b, e) == /\ {t \in Range(b) : sz[t] = 1} = SetOf(e.bs)
+             /\ Cardinality({t \in Range(b) : sz[t] = 0}) = e.drops
+             /\ e.n = Len(e.bs)
+\* runs of consecutively added tasks none of which has been passed to execute
+Runs == {SubSeq(added, i, j) : i \in 1..Len(added), j \in 1..Len(added)} \ {<<>>}
+
+UFH == UNCHANGED <<fl, handled>>
+
+EvAddInv == Is("ainv") /\ AddInv(Ev.p, Ev.t, Ev.s) /\ UFH /\ Consume
 EvAdd    == Is("add") /\ conf.kind = "per" /\ pc[Ev.p].s = "add" /\ pc[Ev.p].t = Ev.t
-            /\ AddLin(Ev.p) /\ UNCHANGED fl /\ Consume
-EvAddRet == Is("aret") /\ AddRet(Ev.p) /\ UNCHANGED fl /\ Consume
+            /\ AddLin(Ev.p) /\ UFH /\ Consume
+EvAddRet == Is("aret") /\ AddRet(Ev.p) /\ UFH /\ Consume
 EvTake   == Is("take") /\ conf.kind = "per"
             /\ (IF Ev.b = <<>> THEN held = <<>> /\ UNCHANGED avars ELSE Take(Ev.b))
-            /\ UNCHANGED fl /\ Consume
-EvXb     == Is("xb") /\ ExecBegin(Ev.b) /\ UNCHANGED fl /\ Consume
-EvXe     == Is("xe") /\ ExecEnd(Ev.b) /\ UNCHANGED fl /\ Consume
-EvWInv   == Is("winv") /\ WaitInv(Ev.p) /\ UNCHANGED fl /\ Consume
-EvWRet   == Is("wret") /\ WaitRet(Ev.p) /\ UNCHANGED fl /\ Consume
-EvFInv   == Is("finv") /\ FlushInv(Ev.p) /\ UNCHANGED fl /\ Consume
-EvFRet   == Is("fret") /\ FlushRet(Ev.p) /\ UNCHANGED fl /\ Consume
-EvFStart == Is("fstart") /\ fl' = fl \cup {Ev.n} /\ UNCHANGED avars /\ Consume
-EvFStop  == Is("fstop") /\ Ev.n \in fl /\ fl' = fl \ {Ev.n} /\ UNCHANGED avars /\ Consume
-EvTick   == Is("tick") /\ UNCHANGED <<fl, avars>> /\ Consume
-EvJump   == Is("jump") /\ UNCHANGED <<fl, avars>> /\ Consume
-EvHang   == Is("hang") /\ FALSE /\ UNCHANGED <<fl, avars>> /\ Consume
-EvQuiet  == Is("quiesce") /\ Quiet /\ UNCHANGED <<fl, avars>> /\ Consume
+            /\ UFH /\ Consume
+EvXb     == Is("xb") /\ (IF Public THEN PubBegin(Ev.b) ELSE ExecBegin(Ev.b)) /\ UFH /\ Consume
+EvXe     == Is("xe") /\ (conf.kind = "inserter" => Ev.b \in handled) /\ ExecEnd(Ev.b) /\ UFH /\ Consume
+EvRh     == Is("rh") /\ conf.kind = "inserter" /\ Ev.b \in running /\ Ev.b \notin handled
+            /\ handled' = handled \cup {Ev.b} /\ UNCHANGED <<fl, avars>> /\ Consume
+EvXbm    == Is("xbm") /\ conf.kind = "metrics" /\ (\E b \in Runs : Sig(b, Ev) /\ PubBegin(b)) /\ UFH /\ Consume
+EvXem    == Is("xem") /\ conf.kind = "metrics" /\ (\E b \in running : Sig(b, Ev) /\ ExecEnd(b)) /\ UFH /\ Consume
+EvWInv   == Is("winv") /\ WaitInv(Ev.p) /\ UFH /\ Consume
+EvWRet   == Is("wret") /\ WaitRet(Ev.p) /\ UFH /\ Consume
+EvFInv   == Is("finv") /\ FlushInv(Ev.p) /\ UFH /\ Consume
+EvFRet   == Is("fret") /\ FlushRet(Ev.p) /\ UFH /\ Consume
+EvFStart == Is("fstart") /\ fl' = fl \cup {Ev.n} /\ UNCHANGED <<handled, avars>> /\ Consume
+EvFStop  == Is("fstop") /\ Ev.n \in fl /\ fl' = fl \ {Ev.n} /\ UNCHANGED <<handled, avars>> /\ Consume
+EvTick   == Is("tick") /\ UNCHANGED <<fl, handled, avars>> /\ Consume
+EvJump   == Is("jump") /\ UNCHANGED <<fl, handled, avars>> /\ Consume
+EvHang   == Is("hang") /\ FALSE /\ UNCHANGED <<fl, handled, avars>> /\ Consume
+EvQuiet  == Is("quiesce") /\ Quiet /\ UNCHANGED <<fl, handled, avars>> /\ Consume
 
 Logged ==
   \/ Reset \/ EvAddInv \/ EvAdd \/ EvAddRet \/ EvTake \/ EvXb \/ EvXe \/ EvWInv \/ EvWRet
   \/ EvFInv \/ EvFRet \/ EvFStart \/ EvFStop \/ EvTick \/ EvJump \/ EvQuiet \/ EvHang
+  \/ EvRh \/ EvXbm \/ EvXem
 
-\* public-API kinds: the effect of Add and the moment a batch is taken are not observable
+\* public-API kinds: the effect of Add is not observable
 Internal ==
-  /\ conf.kind \in {"bulk", "chunk"}
-  /\ \/ \E p \in Procs : AddLin(p)
-     \/ Take(held)
-  /\ UNCHANGED <<l, fl>>
+  /\ Public
+  /\ \E p \in Procs : AddLinFree(p)
+  /\ UNCHANGED <<l, fl, handled>>
 
 Next == Logged \/ Internal
 
